@@ -548,6 +548,18 @@ def diff(a, b, path='') -> list:
     return []
 
 
+def diff_approx(a, b, path='') -> list:
+    """diff() for values that were quantised on the way (sample files through the binary form): floats may differ
+    by half a 1/255 step (values) or by float32 rounding (times)."""
+    if isinstance(a, dict) and isinstance(b, dict) and set(a) == set(b):
+        return [p for k in sorted(a) for p in diff_approx(a[k], b[k], f'{path}.{k}')]
+    if isinstance(a, list) and isinstance(b, list) and len(a) == len(b):
+        return [p for i, (x, y) in enumerate(zip(a, b)) for p in diff_approx(x, y, f'{path}[{i}]')]
+    if isinstance(a, float) and isinstance(b, float):
+        return [] if abs(a - b) <= max(2e-3, 1e-6 * abs(a)) else [path]
+    return diff(a, b, path)
+
+
 def coarse(paths: list) -> list:
     """Field names only (no indices, no container path) - stable enough for a known-finding predicate."""
     out = []
@@ -705,10 +717,11 @@ def my_crc(filename: str) -> int:
 
 def expected_summary(spec: dict) -> tuple:
     """(duration_ms, last_speak_ms, sorted sounds) from the spec: the latest end (or start, for events without
-    an end) over all events / over Speak events; sounds = each Speak event's wave + the caption it plays."""
+    an end) over all events / over Speak events, counted from the scene start at 0 (the container stores an
+    unsigned duration); sounds = each Speak event's wave + the caption it plays."""
     def stop(evs):
         times = [(e['end'] if e['end'] != -1.0 else e['start']) for e in evs]
-        return max(times) if times else 0.0
+        return max(times + [0.0])
     evs = list(iter_spec_events(spec))
     sounds = set()
     for e in evs:
@@ -766,7 +779,8 @@ def decode_image(buf: bytes) -> dict:
 
 
 def check_image_case(acc: core.Acc, case: dict) -> None:
-    """case: {'version': 2|3, 'entries': [[filename, focus, devs], ...]} in input order."""
+    """case: {'version': 2|3, 'entries': [[filename, focus, devs], ...]} in input order; 'light': skip the two
+    second-generation saves (each save costs one 16 MiB-dictionary LZMA run per entry)."""
     version = case['version']
     sig = dict(part=PART, form='image', version=version)
     label = f'scenes.image {core.jdump(case)[:500]}'
@@ -795,7 +809,8 @@ def check_image_case(acc: core.Acc, case: dict) -> None:
         w1 = save(entries)
     except Exception as exc:  # noqa: BLE001
         acc.fail('choreo_image_write_raises', case, f'{label}\nwriter raised {exc!r}', exc=exc_name(exc),
-                 negative_duration=any(expected_summary(s)[0] < 0 for s in specs), **sig)
+                 all_events_before_0=any(all((e['end'] if e['end'] != -1.0 else e['start']) < 0
+                                             for e in iter_spec_events(s)) for s in specs), **sig)
         acc.outcome(('image', 'write_raises'))
         return
     # (1) independent decode: order + summaries
@@ -862,7 +877,7 @@ def check_image_case(acc: core.Acc, case: dict) -> None:
         acc.outcome(('image', 'read_raises'))
         return
     # (3) second generation, (a) entries still unparsed (data copied), (b) every entry parsed first
-    if status == 'ok':
+    if status == 'ok' and not case.get('light'):
         try:
             w2 = save(back)
             if w2 != w1:
@@ -919,8 +934,26 @@ def check_sample(acc: core.Acc, case: dict) -> None:
                  part=PART, form='sample')
         return
     ok = True
+    bin_scene = scene
     for form in forms:
-        st = check_form(acc, case, None, form, scene=scene, expected=observe_scene(scene, form))
+        if form == 'binary' and 'text' in forms:
+            # the text sample is not float32/1-byte exact: the first binary generation quantises it (compared with
+            # a tolerance), from then on the value must be reproduced exactly
+            try:
+                bin_scene, _ = read_binary(*write_binary(scene))
+            except Exception as exc:  # noqa: BLE001
+                acc.fail('choreo_read_raises', case, f'{label}: binary round trip raised {exc!r}', exc=exc_name(exc),
+                         flex_tracks=False, part=PART, form='binary')
+                ok = False
+                continue
+            paths = diff_approx(observe_scene(scene, 'binary'), observe_scene(bin_scene, 'binary'))
+            if paths:
+                acc.fail('choreo_roundtrip_diff', case, f'{label}: binary form differs beyond quantisation at {paths[:8]}',
+                         fields=coarse(paths), part=PART, form='binary')
+                ok = False
+            st = check_form(acc, case, None, form, scene=bin_scene, expected=observe_scene(bin_scene, form))
+        else:
+            st = check_form(acc, case, None, form, scene=scene, expected=observe_scene(scene, form))
         ok = ok and st == 'ok'
     if len(list(scene.iter_events())) >= 3 and ok:
         acc.nontrivial += 1
@@ -929,17 +962,17 @@ def check_sample(acc: core.Acc, case: dict) -> None:
     for version in (2, 3):
         try:
             f = io.BytesIO()
-            ch.save_scenes_image_sync(f, [ch.Entry.from_scene('scenes/sample.vcd', scene)], version=version)
+            ch.save_scenes_image_sync(f, [ch.Entry.from_scene('scenes/sample.vcd', bin_scene)], version=version)
             dec = decode_image(f.getvalue())
             back = ch.parse_scenes_image(io.BytesIO(f.getvalue()))
             [entry] = back.values()
-            paths = diff(observe_scene(scene, 'binary'), observe_scene(entry.data, 'binary'))
+            paths = diff(observe_scene(bin_scene, 'binary'), observe_scene(entry.data, 'binary'))
             if paths or dec['entries'][0]['crc'] != my_crc('scenes/sample.vcd'):
                 acc.fail('choreo_image_roundtrip_diff', case, f'{label} via scenes.image v{version}: {paths[:8]}',
                          fields=coarse(paths), part=PART, form='image', version=version)
         except Exception as exc:  # noqa: BLE001
             acc.fail('choreo_image_write_raises', case, f'{label} via scenes.image v{version}: {exc!r}',
-                     exc=exc_name(exc), negative_duration=False, part=PART, form='image', version=version)
+                     exc=exc_name(exc), all_events_before_0=False, part=PART, form='image', version=version)
 
 
 # ---------------------------------------------------------------------------------------------
@@ -961,6 +994,19 @@ def combos(focus: str, depth: int):
 def devs_of(focus: str, combo) -> list:
     feats = features(focus)
     return [[feats[i][0], feats[i][1][v]] for i, v in combo]
+
+
+# features the entry summary (duration, last speak, sounds) depends on: explored pairwise as one-entry images
+SUMMARY_FEATURES = ['start', 'end', 'param1', 'cc_type', 'cc_token', 'combined', 'chan_events', 'globals', 'place']
+
+
+def summary_pairs() -> list:
+    feats = features('S')
+    idx = [i for i, f in enumerate(feats) if f[0] in SUMMARY_FEATURES]
+    out = []
+    for i, j in itertools.combinations(idx, 2):
+        out.extend(itertools.product([(i, v) for v in range(feats[i][2])], [(j, v) for v in range(feats[j][2])]))
+    return out
 
 
 # scenes for multi-entry images: (focus, devs)
@@ -986,7 +1032,7 @@ def shard(spec) -> core.Acc:
         _, focus, combo_list = spec
         for combo in combo_list:
             for version in (2, 3):
-                check_image_case(acc, {'part': PART, 'mode': 'image', 'version': version,
+                check_image_case(acc, {'part': PART, 'mode': 'image', 'version': version, 'light': True,
                                        'entries': [[FILENAMES[0], focus, devs_of(focus, combo)]]})
     elif kind == 'imageN':
         _, perms = spec
@@ -1004,38 +1050,44 @@ def shard(spec) -> core.Acc:
 
 def run(ctx: core.Ctx) -> None:
     depth = ctx.pick(2, 3)
-    shards = [('sample', f) for f in SAMPLES]
+    shards = []
+    # scenes.image first: LZMA with Source's 16 MiB dictionary costs ~20 ms per entry and save
+    image_foci = ctx.pick(['S'], list(FOCI))
+    for focus in FOCI:
+        singles = [()] + (list(combos(focus, 1)) if focus in image_foci else [])
+        for chunk in core.chunked(singles, 30):
+            shards.append(('image1', focus, chunk))
+    menu = range(ctx.pick(4, len(IMAGE_MENU)))
+    perms = [p for r in (1, 2, 3) for p in itertools.permutations(menu, r)]
+    for chunk in core.chunked(perms, 3):
+        shards.append(('imageN', chunk))
+    for chunk in core.chunked(summary_pairs(), 30):
+        shards.append(('image1', 'S', chunk))
+    shards += [('sample', f) for f in SAMPLES]
     n_scene = 0
     for focus in FOCI:
         for d in range(0, depth + 1):
-            # the third level is explored for the Speak focus (the richest record: data follows the flex block)
-            # over all features, and for the other foci only over the event-record features
-            if d == 3 and focus != 'S':
-                continue
             all_c = list(combos(focus, d))
             n_scene += len(all_c)
-            for chunk in core.chunked(all_c, 250):
+            for chunk in core.chunked(all_c, 400):
                 shards.append(('scene', focus, chunk))
-        singles = [()] + list(combos(focus, 1))
-        for chunk in core.chunked(singles, 40):
-            shards.append(('image1', focus, chunk))
-    perms = [p for r in (1, 2, 3) for p in itertools.permutations(range(len(IMAGE_MENU)), r)]
-    for chunk in core.chunked(perms, 10):
-        shards.append(('imageN', chunk))
     k = ctx.seed % len(shards)
     core.par_map(shard, shards[k:] + shards[:k], ctx.acc)
     ctx.acc.count('choreo_scene_cases', n_scene)
+    ctx.acc.count('choreo_image_permutations', len(perms))
 
 
 RULE = (
     'choreo: base scene (one actor > one channel > one focus event) with the focus event taken from each of '
     '{Expression, Speak, Gesture, Loop} (every other EventType as a single deviation) + every choice of <= 2 (quick) '
-    '/ <= 3 (thorough, Speak focus) features set to each boundary value, features = every Event field, each flag, '
+    '/ <= 3 (thorough) features set to each boundary value, features = every Event field, each flag, '
     'relative/timing/absolute tags, ramps and ramp edges, relative-tag names, flex tracks, loop count, all speak '
     'options, extra events/channels/actors, active flags, and every Scene field; each case goes through text '
     '(export_text/parse_text with a default Tokenizer) and binary (export_binary/parse_binary with a harness string '
-    'pool); every Interpolation member is swept as a single deviation.  scenes.image v2+v3: every base and '
-    'single-deviation scene as a one-entry image, and every ordered selection of 1-3 of 5 (filename, scene) pairs; the '
+    'pool); every Interpolation member is swept as a single deviation.  scenes.image v2+v3: every base scene and every '
+    'single-deviation scene (quick: Speak focus; thorough: all four) and every pair of deviations over the 9 features '
+    'the entry summary depends on (times, wave, caption options, extra events, placement) as a one-entry image, and '
+    'every ordered selection of 1-3 of 4 (quick) / 5 (thorough) (filename, scene) pairs (these also re-saved); the '
     'file is decoded independently (struct + lzma) for order and summaries, read back, and re-saved both with '
     'unparsed and with parsed entries.  Sample files tests/test_choreo/*.  Representability: strings are latin-1 '
     'without NUL; times/floats are float32-exact with <= 6 decimals (distance: 2 decimals, >= 0); ramp and tag values '
